@@ -75,7 +75,9 @@ def build_sets(case):
         pb = {"a": jnp.asarray(c12.rows_of("a", b) * scale)} if form in ("param", "both") else None
         obs = None
         if form in ("obs", "both"):
-            o = {"pinn_in": jnp.asarray(L.points(b, nv, salt=8 + salt)), "val": jnp.asarray(np.linspace(0.2, 0.6, b)[:, None] * scale),
+            vals_o = np.linspace(0.2, 0.6, b)[:, None] * scale
+            # argument set A' gives the observed values of its single-output network as a flat (rows,) array
+            o = {"pinn_in": jnp.asarray(L.points(b, nv, salt=8 + salt)), "val": jnp.asarray(vals_o[:, 0] if tag == "b" else vals_o),
                  "eq_params": {"b": jnp.asarray(c12.OBS_B[:b] * scale)}}
             obs = {"u": o} if kind.startswith("sys") else o
         batch = L.make_batch(bk, pts, param=pb, obs=obs)
@@ -93,9 +95,10 @@ def build_sets(case):
             gen = jinns.data.CubicMeshPDEStatio(key=k1, n=5, nb=8, omega_batch_size=b, omega_border_batch_size=1, dim=2, min_pts=(-1.0, 0.0), max_pts=(2.0, 1.0))
             rows = b
         else:
-            gen = jinns.data.CubicMeshPDENonStatio(key=k1, n=5, nb=8, nt=4, omega_batch_size=b, omega_border_batch_size=1, temporal_batch_size=2, dim=2,
+            # temporal batch much larger than the spatial one (related sizes differ)
+            gen = jinns.data.CubicMeshPDENonStatio(key=k1, n=5, nb=8, nt=9, omega_batch_size=b, omega_border_batch_size=1, temporal_batch_size=b + 3, dim=2,
                                                    min_pts=(-1.0, 0.0), max_pts=(2.0, 1.0), tmin=0.0, tmax=1.0)
-            rows = 2 * b
+            rows = (b + 3) * b
         pgen = jinns.data.DataGeneratorParameter(k2, 2 * rows + 1, rows, {"a": (0.5, 1.5)}) if form in ("param", "both") else None
         r = np.arange(2 * rows + 1, dtype=float)
         ogen = None
